@@ -98,7 +98,7 @@ func (g *vgen) unknownField(md protoreflect.MessageDescriptor) chunk {
 		if g.r.Intn(4) == 0 {
 			num = protowire.Number(1<<29 - 1 - g.r.Intn(5))
 		}
-		if md.Fields().ByNumber(num) == nil {
+		if fieldByNumber(md, num) == nil {
 			break
 		}
 	}
@@ -337,4 +337,10 @@ func canonical(m proto.Message) []byte {
 
 var _ = dynamicpb.NewMessage
 
-func pbrenderMsg(m protoreflect.Message) string { s := pbrender.Message(m); if len(s) > 300 { s = s[:300] }; return s }
+func pbrenderMsg(m protoreflect.Message) string {
+	s := pbrender.Message(m)
+	if len(s) > 300 {
+		s = s[:300]
+	}
+	return s
+}
